@@ -21,9 +21,7 @@ func genGeneric(c *Ctx) {
 	lookupTable(c)
 	representativeTable(c)
 	// a parameter whose type is a type parameter must not be named after it (it would shadow the type parameter)
-	if na, err := gen.ResolveNameAlloc(c.Prog); err == nil {
-		namingTable(c, na)
-	}
+	namesTables(c, nil, false, true)
 }
 
 func genFormat(c *Ctx) {}
@@ -42,8 +40,6 @@ func genCompile(c *Ctx) {
 	kindsTable(c)
 	gen.CheckImports(c.Run, c.Prog)
 	importTables(c)
-	if na := gen.CheckAddVar(c.Run, c.Prog); na != nil {
-		gen.CheckReserved(c.Run, c.Prog, na, freeNameList(c, "G-RESERVED"), false)
-	}
+	namesTables(c, freeNameList(c, "G-RESERVED"), false, false)
 	gen.CheckVarNameOwners(c.Run, c.Prog)
 }
